@@ -59,3 +59,8 @@ M("c17-receive-swallows-broken", "C17", TLS, "TLSStream.receive", "        data 
 M("c17-listener-drops-standard-compatible", "C17", TLS, "TLSListener.serve", "                        ssl_context=self.ssl_context,\n                        standard_compatible=self.standard_compatible,\n", "                        ssl_context=self.ssl_context,\n", ["R17-d"])
 M("c17-connectable-drops-hostname", "C17", TLS, "TLSConnectable.connect", "                hostname=self.hostname,\n", "", ["R17-d"])
 M("c17-anext-broken-is-clean-end", "C17", "abc/_streams.py", "ByteReceiveStream.__anext__", "        except EndOfStream:", "        except (EndOfStream, BrokenResourceError):", ["R17-d"])
+
+# from seeded change C17/e (round 3)
+M("c17-checkpoint-after-successful-call", "C17", TLS, "TLSStream._call_sslobject_method",
+  "                if self._write_bio.pending:\n                    await self.transport_stream.send(self._write_bio.read())\n\n                return result",
+  "                if self._write_bio.pending:\n                    await self.transport_stream.send(self._write_bio.read())\n                else:\n                    await sleep(0)\n\n                return result", ["R17-a"])
